@@ -1,8 +1,11 @@
-"""Witness / counter-witness constructors for C17's pattern clauses (margins >= 2x on every threshold).
+"""Witness / counter-witness constructors for C17's pattern clauses.
 
-History: >= 10 'ordinary' candles with body ~= 1.0 and range ~= 2.0 (so avgBody ~= 1, avgRange ~= 2,
-doji threshold 0.2, very-short shadow 0.2, near 0.4) whether or not the candle under test is included
-in the averages. All prices are multiples of 1/64 (exact under *2^k and under shifts by multiples of 1/64).
+A candidate candle is appended to a history of 11-25 ordinary candles. The history may change its
+volatility regime (uniform / contracting / expanding), so that every averaging window the documentation
+names (10 candles for body and range, 5 candles for 'near') matters. Each construction is VALIDATED by an
+independent clause-by-clause evaluation with >= 2x margin under both readings of "the average of the n
+previous candles" (including or excluding the candle itself); constructions that do not clear the margins
+are dropped, never asserted. All prices are multiples of 1/64 (exact under *2^k and dyadic shifts).
 """
 Q = 1 / 64
 
@@ -11,20 +14,27 @@ def q(x):
     return round(x / Q) * Q
 
 
-def history(rng, n, level=100.0):
+def history(rng, n, regime, level=200.0):
     out = []
     p = level
+    cut = n - rng.randint(5, 7)
     for i in range(n):
+        if regime == "contracting":
+            s = 10.0 if i < cut else 1.0
+        elif regime == "expanding":
+            s = 1.0 if i < cut else 10.0
+        else:
+            s = 1.0
         up = rng.random() < 0.5
-        body = q(rng.uniform(0.9, 1.1))
+        body = q(s * rng.uniform(0.9, 1.1))
         o = q(p)
         c = o + body if up else o - body
-        hi = max(o, c) + q(rng.uniform(0.45, 0.55))
-        lo = min(o, c) - q(rng.uniform(0.45, 0.55))
+        hi = max(o, c) + q(s * rng.uniform(0.45, 0.55))
+        lo = min(o, c) - q(s * rng.uniform(0.45, 0.55))
         out.append((o, hi, lo, c))
-        p = c + q(rng.uniform(-0.2, 0.2))
-        if p < 20:
-            p = 60.0
+        p = c + q(s * rng.uniform(-0.2, 0.2))
+        if p < 60:
+            p = 200.0
     return out
 
 
@@ -32,58 +42,130 @@ def ohlc(o, c, up_sh, lo_sh):
     return (q(o), q(max(o, c) + up_sh), q(min(o, c) - lo_sh), q(c))
 
 
+def body(c):
+    return abs(c[0] - c[3])
+
+
+def rng_(c):
+    return c[1] - c[2]
+
+
+def avgs(cs, i, f, length):
+    """both readings of 'average of the `length` candles': ending at i, or the `length` before i"""
+    a = [f(c) for c in cs[max(0, i - length + 1):i + 1]]
+    b = [f(c) for c in cs[max(0, i - length):i]]
+    out = [sum(a) / length]
+    if len(b) == length:
+        out.append(sum(b) / length)
+    return min(out), max(out)
+
+
+def lt(x, thr):
+    """x < thr with margin, under the (lo, hi) readings of thr"""
+    lo, hi = thr
+    if 2 * x <= lo:
+        return "T"
+    if x >= 2 * hi:
+        return "F"
+    return "?"
+
+
+def gt(x, thr):
+    lo, hi = thr
+    if x >= 2 * hi and x > 0:
+        return "T"
+    if 2 * x <= lo:
+        return "F"
+    return "?"
+
+
+def clauses(cs, pattern):
+    """independent evaluation of the documented clauses on the last candle of cs -> {clause: 'T'|'F'|'?'}"""
+    i = len(cs) - 1
+    c, p = cs[i], cs[i - 1]
+    o, h, l, cl = c
+    b = body(c)
+    us, ls = h - max(o, cl), min(o, cl) - l
+    aB = avgs(cs, i, body, 10)
+    aR = avgs(cs, i, rng_, 10)
+    tenth = (0.1 * aR[0], 0.1 * aR[1])
+    if pattern == "doji":
+        return {"body_not_doji": lt(b, tenth)}
+    if pattern == "dojistar":
+        pB = avgs(cs, i - 1, body, 10)
+        pbody = body(p)
+        up = p[3] > p[0]
+        gap = (min(o, cl) - max(p[0], p[3])) if up else (min(p[0], p[3]) - max(o, cl))
+        clear = 0.05 * aR[1]
+        return {"prev_body_short": gt(pbody, pB), "body_not_doji": lt(b, tenth),
+                "no_gap": "T" if (gap >= clear and p[3] != p[0]) else ("F" if gap <= -clear else "?")}
+    if pattern == "hammer":
+        near = avgs(cs, i - 1, rng_, 5)
+        d = min(o, cl) - p[2]
+        return {"body_long": lt(b, aB), "lower_shadow_short": gt(ls, (b, b)), "upper_shadow_long": lt(us, tenth),
+                "not_near_low": "T" if d <= 0.5 * 0.2 * near[0] else ("F" if d >= 2 * 0.2 * near[1] else "?")}
+    if pattern == "inv_hammer":
+        gap = min(p[0], p[3]) - max(o, cl)
+        clear = 0.05 * aR[1]
+        return {"body_long": lt(b, aB), "upper_shadow_short": gt(us, (b, b)), "lower_shadow_long": lt(ls, tenth),
+                "no_gap_down": "T" if gap >= clear else ("F" if gap <= -clear else "?")}
+    raise ValueError(pattern)
+
+
 def make(rng, pattern, variant):
-    """returns (candles as (o,h,l,c) list, expected bool). variant 'witness' or the name of the broken clause."""
+    """-> (candles, expected bool) or None when the construction does not clear the margins."""
     n = rng.randint(11, 25)
-    h = history(rng, n)
+    regime = rng.choice(["uniform", "uniform", "contracting", "expanding"])
+    h = history(rng, n, regime)
+    aB = sum(body(c) for c in h[-10:]) / 10
+    aR = sum(rng_(c) for c in h[-10:]) / 10
+    aR5 = sum(rng_(c) for c in h[-5:]) / 5
     po, ph, pl, pc = h[-1]
     if pattern == "doji":
-        body = 0.05 if variant == "witness" else 0.8
+        b = 0.02 * aR if variant == "witness" else 0.45 * aR
         o = q(pc)
-        cnd = ohlc(o, o + rng.choice([-1, 1]) * body, 0.9, 0.9)
-        return h + [cnd], variant == "witness"
-    if pattern == "dojistar":
-        # rebuild the previous candle: long body (3.0), direction up or down
+        cs = h + [ohlc(o, o + rng.choice([-1, 1]) * b, 0.4 * aR, 0.4 * aR)]
+    elif pattern == "dojistar":
         up = rng.random() < 0.5
-        pbody = 3.0 if variant != "prev_body_short" else 0.3
+        pbody = 3.2 * aB if variant != "prev_body_short" else 0.25 * aB
         o0 = q(h[-2][3])
-        c0 = o0 + pbody if up else o0 - pbody
-        prev = ohlc(o0, c0, 0.5, 0.5)
+        prev = ohlc(o0, o0 + pbody if up else o0 - pbody, 0.2 * aR, 0.2 * aR)
         h = h[:-1] + [prev]
-        gap = 0.5 if variant != "no_gap" else -min(1.0, pbody / 2)
-        body = 0.03 if variant != "body_not_doji" else 0.8
+        aR = sum(rng_(c) for c in h[-10:]) / 10
+        gap = 0.3 * aR if variant != "no_gap" else -min(0.4 * pbody, 0.5 * aR)
+        b = 0.015 * aR if variant != "body_not_doji" else 0.5 * aR
+        sh = 0.3 * aR
         if up:
             o = max(prev[0], prev[3]) + gap
-            cnd = ohlc(o, o + body, 0.8, 0.8 if variant != "no_gap" else 0.3)
+            cnd = ohlc(o, o + b, sh, sh if variant != "no_gap" else 0.1 * aR)
         else:
             o = min(prev[0], prev[3]) - gap
-            cnd = ohlc(o, o - body, 0.8 if variant != "no_gap" else 0.3, 0.8)
-        return h + [cnd], variant == "witness"
-    if pattern == "hammer":
-        body = 0.3 if variant != "body_long" else 2.6
-        lo_sh = 1.5 if variant != "lower_shadow_short" else 0.1
-        if variant == "body_long":
-            lo_sh = 6.0
-        up_sh = 0.03 if variant != "upper_shadow_long" else 0.6
-        bottom = pl - 0.1 if variant != "not_near_low" else pl + 1.2
-        if rng.random() < 0.5:
-            cnd = ohlc(bottom, bottom + body, up_sh, lo_sh)
-        else:
-            cnd = ohlc(bottom + body, bottom, up_sh, lo_sh)
-        return h + [cnd], variant == "witness"
-    if pattern == "inv_hammer":
-        body = 0.3 if variant != "body_long" else 2.6
-        up_sh = 1.5 if variant != "upper_shadow_short" else 0.1
-        if variant == "body_long":
-            up_sh = 6.0
-        lo_sh = 0.03 if variant != "lower_shadow_long" else 0.6
-        top = min(po, pc) - 0.4 if variant != "no_gap_down" else min(po, pc) + 0.5
-        if rng.random() < 0.5:
-            cnd = ohlc(top, top - body, up_sh, lo_sh)
-        else:
-            cnd = ohlc(top - body, top, up_sh, lo_sh)
-        return h + [cnd], variant == "witness"
-    raise ValueError(pattern)
+            cnd = ohlc(o, o - b, sh if variant != "no_gap" else 0.1 * aR, sh)
+        cs = h + [cnd]
+    elif pattern == "hammer":
+        b = 0.25 * aB if variant != "body_long" else 2.6 * max(aB, 1.0)
+        lo_sh = 5 * b if variant != "lower_shadow_short" else 0.3 * b
+        up_sh = 0.012 * aR if variant != "upper_shadow_long" else 0.3 * aR
+        bottom = pl - 0.02 * aR5 if variant != "not_near_low" else pl + 3 * 0.2 * aR5
+        cs = h + [ohlc(bottom, bottom + b, up_sh, lo_sh) if rng.random() < 0.5 else ohlc(bottom + b, bottom, up_sh, lo_sh)]
+    elif pattern == "inv_hammer":
+        b = 0.25 * aB if variant != "body_long" else 2.6 * max(aB, 1.0)
+        up_sh = 5 * b if variant != "upper_shadow_short" else 0.3 * b
+        lo_sh = 0.012 * aR if variant != "lower_shadow_long" else 0.3 * aR
+        top = min(po, pc) - 0.2 * aR if variant != "no_gap_down" else min(po, pc) + 0.3 * aR
+        cs = h + [ohlc(top, top - b, up_sh, lo_sh) if rng.random() < 0.5 else ohlc(top - b, top, up_sh, lo_sh)]
+    else:
+        raise ValueError(pattern)
+    if any(c[2] <= 0 or not (c[2] <= min(c[0], c[3]) and max(c[0], c[3]) <= c[1]) for c in cs):
+        return None
+    ev = clauses(cs, pattern)
+    if variant == "witness":
+        if all(v == "T" for v in ev.values()):
+            return cs, True, regime
+        return None
+    if ev.get(variant) == "F" and all(v == "T" for k, v in ev.items() if k != variant):
+        return cs, False, regime
+    return None
 
 
 VARIANTS = {
